@@ -10,11 +10,6 @@ func init() {
 	vfHarnesses["VerifH_grpcmsg"] = VerifH_grpcmsg
 }
 
-// Frozen copies of larking's documented status tables (code.go at the pinned revision): the tables
-// are the documentation, so a change to them is a change of the documented mapping.
-var refHTTPStatus = [17]int{200, 408, 500, 400, 504, 404, 409, 403, 429, 400, 409, 400, 501, 500, 503, 500, 401}
-var refWSStatus = [17]ws.StatusCode{1000, 1001, 1011, 1003, 1001, 1011, 1001, 1011, 1011, 1011, 1011, 1011, 1003, 1011, 1011, 1011, 1008}
-
 // VerifH_codes: HTTPStatusCode / WSStatusCode on any uint32 code (C05 tables, C09 no panic).
 func VerifH_codes() {
 	c := codes.Code(vfU32())
@@ -31,19 +26,6 @@ func VerifH_codes() {
 		vfCheck(w == ws.StatusInternalServerError, "out-of-range code must map to close code 1011")
 		vfCover("out-of-range")
 	}
-}
-
-func refUnhex(c byte) int {
-	if c >= '0' && c <= '9' {
-		return int(c - '0')
-	}
-	if c >= 'a' && c <= 'f' {
-		return int(c-'a') + 10
-	}
-	if c >= 'A' && c <= 'F' {
-		return int(c-'A') + 10
-	}
-	return -1
 }
 
 // VerifH_grpcmsg: refPercentDecode(encodeGrpcMessage(m)) == m and the output is a legal
